@@ -168,7 +168,7 @@ def judge_rows(seq, rows, err, res, witness):
     for i, ((kind, val), row) in enumerate(zip(seq, rows)):
         why = describe(kind, val, row)
         if why:
-            res.viol("row_does_not_describe_its_input", pos=i, kind=kind, why=why,
+            res.viol("row_does_not_describe_its_input", pos=i, row_kind=kind, why=why,
                      row={k: row.get(k) for k in ("input_reaction", "reaction", "solved")},
                      malformed_kinds=sorted({k for k, _ in seq if k != "v"}), **witness)
             return
@@ -246,7 +246,7 @@ def run_cli(spec, res):
                 continue
             why = describe(kind, val, row)
             if why:
-                res.viol("row_does_not_describe_its_input", pos=i, kind=kind, why=why, where="cli",
+                res.viol("row_does_not_describe_its_input", pos=i, row_kind=kind, why=why, where="cli",
                          malformed_kinds=sorted({k for k in shape if k != "v"}), **wit)
                 return
     finally:
